@@ -2,7 +2,7 @@
 
 import re
 
-NAME = r"[A-Za-z_][A-Za-z0-9_.\-]*"
+NAME = r"[^\W\d][\w.\-]*"  # (Unicode letters count: pyxform accepts any XML name)
 P_ABS = re.compile(rf"^(?:/{NAME})+$")
 P_REL = re.compile(rf"^\.\.(?:/\.\.)*(?:/{NAME})*$")
 LAST_SAVED = "instance('__last-saved')"
